@@ -1512,7 +1512,17 @@ pub trait QueryBuilder:
             && matches!(right.get_bin_oper(), Some(&BinOper::And));
 
         // Due to representation of trinary op like/not like with optional arg escape as nested binary ops.
-        let drop_right_escape_hack = op_as_oper.is_like()
+        #[cfg(feature = "backend-postgres")]
+        let is_ilike = matches!(
+            op,
+            BinOper::PgOperator(
+                crate::extension::postgres::PgBinOper::ILike
+                    | crate::extension::postgres::PgBinOper::NotILike
+            )
+        );
+        #[cfg(not(feature = "backend-postgres"))]
+        let is_ilike = false;
+        let drop_right_escape_hack = (op_as_oper.is_like() || is_ilike)
             && right.is_binary()
             && matches!(right.get_bin_oper(), Some(&BinOper::Escape));
 
